@@ -28,6 +28,15 @@ CLAIMED["C04"] = dict(
     technique="Lean 4 invariant proof over primitive steps of the framework model (Step/Reach/Run engine) + differential correspondence + spec monitor on implementation traces",
 )
 
+CLAIMED["C02"] = dict(
+    text="Proof (Lean 4), for every machine set, fractions, oracle, every prior history (single events or batches) and every single-event call: a returned "
+         "SendPadding for machine m implies, with packet counts recomputed from the event history alone, budget not exhausted or both the machine's and the "
+         "framework's padding fraction below their limits (fraction over zero packets counts as below). Rests on a proved refinement: the model's accounting "
+         "fields are a pure function of the reported events. The exact-rational form of the same predicate runs as a monitor on the implementation's traces.",
+    ref="5 (C02)",
+    technique="Lean 4: gate invariant over primitive steps + accounting refinement theorem; differential correspondence; exact-rational spec monitor on implementation traces",
+)
+
 PENDING = {}
 
 ALL = [f"C{i:02d}" for i in range(1, 21)]
